@@ -726,6 +726,10 @@ class Canon:
                 # Series.eq(c) is the element-wise `==`
                 o_ = {"eq": "==", "ne": "!=", "lt": "<", "le": "<=", "gt": ">", "ge": ">="}[m]
                 return self.canon(mk("cmp", o_, f.args[0], args[0]))
+            if m in ("agg", "aggregate") and len(cargs) == 1 and not ckw and cargs[0].op == "const" \
+                    and const_value(cargs[0]) in ("min", "max", "sum", "mean", "median", "std", "var", "count", "prod"):
+                # x.agg("min") dispatches to x.min() (the *string* names the pandas reduction; a callable does not)
+                return self.canon(mk("call", mk("attr", f.args[0], const_value(cargs[0])), (), ()))
             if m == "mask" and len(cargs) == 2 and not ckw:
                 # df.mask(cond, value) is the value of df after `df[cond] = value` (on a copy)
                 return self.canon(mk("upd", f.args[0], args[0], args[1]))
